@@ -3,8 +3,10 @@ package vuego
 import (
 	"bytes"
 	"context"
+	"errors"
 	"fmt"
 	"io"
+	"io/fs"
 	"path/filepath"
 	"strings"
 
@@ -75,28 +77,41 @@ func extractSlotsFromDOM(nodes []*html.Node) *SlotScope {
 // It first checks if the layout exists relative to the current template's directory,
 // then falls back to the layouts/ directory.
 // If the layout name already includes a .vuego extension, it's used as-is for relative resolution.
-func (t *template) resolveLayoutPath(layout, currentFile string) string {
+func (t *template) resolveLayoutPath(layout, currentFile string) (string, error) {
 	currentDir := filepath.Dir(currentFile)
+
+	// (a file that is not there - or cannot be there: a path that climbs out of the file system -
+	// leaves the name to layouts/; any other failure to look is an error, not an answer)
+	exists := func(path string) (bool, error) {
+		err := t.vue.loader.Stat(path)
+		if err == nil {
+			return true, nil
+		}
+		if errors.Is(err, fs.ErrNotExist) || errors.Is(err, fs.ErrInvalid) {
+			return false, nil
+		}
+		return false, fmt.Errorf("error resolving layout %s: %w", layout, err)
+	}
 
 	// Check if layout has .vuego extension (explicit relative path)
 	if strings.HasSuffix(layout, ".vuego") {
 		relativePath := filepath.Join(currentDir, layout)
-		if t.vue.loader.Stat(relativePath) == nil {
-			return relativePath
+		if ok, err := exists(relativePath); ok || err != nil {
+			return relativePath, err
 		}
 	}
 
 	// Try relative path without extension
 	relativePath := filepath.Join(currentDir, layout+".vuego")
-	if t.vue.loader.Stat(relativePath) == nil {
-		return relativePath
+	if ok, err := exists(relativePath); ok || err != nil {
+		return relativePath, err
 	}
 
 	// Fall back to layouts/ directory (a name written with its extension keeps it)
 	if strings.HasSuffix(layout, ".vuego") {
-		return "layouts/" + layout
+		return "layouts/" + layout, nil
 	}
-	return "layouts/" + layout + ".vuego"
+	return "layouts/" + layout + ".vuego", nil
 }
 
 // layout loads a template, and if the template contains "layout" in the metadata, it will
@@ -203,6 +218,10 @@ func (t *template) layout(ctx context.Context, w io.Writer) error {
 		// Continue with next layout in chain
 		isFirstTemplate = false
 		delete(data, "layout")
-		filename = t.resolveLayoutPath(layout, filename)
+		next, err := t.resolveLayoutPath(layout, filename)
+		if err != nil {
+			return err
+		}
+		filename = next
 	}
 }
